@@ -281,6 +281,57 @@ type guardFact struct {
 
 func guardsOf(target *ssa.BasicBlock) []guardFact { return guardsOfUnder(target, nil) }
 
+// cmp returns the comparison a guard establishes in normal form: the operator
+// as it holds on this edge (negated on the false edge) with a constant operand,
+// if any, on the right. `if n != 0 { return }` and `if n == 0 { … }` both give
+// (n, ==, 0) for the code that runs when n is zero.
+func (g guardFact) cmp() (x, y ssa.Value, op token.Token, ok bool) {
+	bo, isB := g.Cond.(*ssa.BinOp)
+	if !isB {
+		return nil, nil, 0, false
+	}
+	op = bo.Op
+	if !g.True {
+		switch op {
+		case token.EQL:
+			op = token.NEQ
+		case token.NEQ:
+			op = token.EQL
+		case token.LSS:
+			op = token.GEQ
+		case token.GEQ:
+			op = token.LSS
+		case token.GTR:
+			op = token.LEQ
+		case token.LEQ:
+			op = token.GTR
+		default:
+			return nil, nil, 0, false
+		}
+	}
+	x, y = bo.X, bo.Y
+	if _, xc := x.(*ssa.Const); xc {
+		if _, yc := y.(*ssa.Const); !yc {
+			x, y = y, x
+			switch op {
+			case token.LSS:
+				op = token.GTR
+			case token.GTR:
+				op = token.LSS
+			case token.LEQ:
+				op = token.GEQ
+			case token.GEQ:
+				op = token.LEQ
+			}
+		}
+	}
+	switch op {
+	case token.EQL, token.NEQ, token.LSS, token.LEQ, token.GTR, token.GEQ:
+		return x, y, op, true
+	}
+	return nil, nil, 0, false
+}
+
 func guardsOfUnder(target *ssa.BasicBlock, edgeOK func(*ssa.BasicBlock, int) bool) []guardFact {
 	var out []guardFact
 	fn := target.Parent()
@@ -584,18 +635,41 @@ var defaultOrigin = originOpts{throughSlice: true, throughConvert: true, through
 // by closures). Roots are: parameters, calls, Extracts of calls, field/element
 // loads, globals, constants, allocations, etc.
 func (p *Program) origins(v ssa.Value, o originOpts) []ssa.Value {
+	var out []ssa.Value
+	seen := map[ssa.Value]bool{}
+	for _, r := range p.originsCtx(v, nil, o) {
+		if !seen[r.v] {
+			seen[r.v] = true
+			out = append(out, r.v)
+		}
+	}
+	return out
+}
+
+// ctxValue is a root value together with the chain of helper call sites
+// through which it was reached: a follow-up query on one of its operands
+// (originsCtx(operand, root.ctx, …)) resolves the helper's parameters to the
+// arguments of that very call chain instead of the union over all call sites.
+type ctxValue struct {
+	v   ssa.Value
+	ctx *originCtx
+}
+
+func (p *Program) originsCtx(v ssa.Value, start *originCtx, o originOpts) []ctxValue {
 	type key struct {
 		v   ssa.Value
 		ctx *originCtx
 	}
 	seen := map[key]bool{}
-	rootSeen := map[ssa.Value]bool{}
-	var roots []ssa.Value
-	root := func(v ssa.Value) {
-		if !rootSeen[v] {
-			rootSeen[v] = true
-			roots = append(roots, v)
+	var roots []ctxValue
+	root := func(v ssa.Value, ctx *originCtx) {
+		ctx = ctx.downOnly()
+		for _, r := range roots {
+			if r.v == v && r.ctx.equal(ctx) {
+				return
+			}
 		}
+		roots = append(roots, ctxValue{v, ctx})
 	}
 	var walk func(v ssa.Value, ctx *originCtx)
 	walk = func(v ssa.Value, ctx *originCtx) {
@@ -618,19 +692,19 @@ func (p *Program) origins(v ssa.Value, o originOpts) []ssa.Value {
 			if o.throughConvert {
 				walk(x.X, ctx)
 			} else {
-				root(v)
+				root(v, ctx)
 			}
 		case *ssa.Slice:
 			if o.throughSlice {
 				walk(x.X, ctx)
 			} else {
-				root(v)
+				root(v, ctx)
 			}
 		case *ssa.TypeAssert:
 			if o.throughAssert {
 				walk(x.X, ctx)
 			} else {
-				root(v)
+				root(v, ctx)
 			}
 		case *ssa.Extract:
 			if ta, ok := x.Tuple.(*ssa.TypeAssert); ok && x.Index == 0 && o.throughAssert {
@@ -645,26 +719,26 @@ func (p *Program) origins(v ssa.Value, o originOpts) []ssa.Value {
 					return
 				}
 			}
-			root(v)
+			root(v, ctx)
 		case *ssa.FreeVar:
 			if b := p.freeVarBinding(x); b != nil {
 				walk(b, ctx)
 			} else {
-				root(v)
+				root(v, ctx)
 			}
 		case *ssa.Parameter:
 			fn := x.Parent()
 			if o.local || !p.isTransparent(fn) {
-				root(v)
+				root(v, ctx)
 				return
 			}
 			i := paramIndex(x)
-			if ctx != nil && ctx.site.Common().StaticCallee() == fn {
+			if ctx != nil && !ctx.upward && ctx.site.Common().StaticCallee() == fn {
 				walk(argAt(ctx.site, i), ctx.up)
 				return
 			}
 			if ctx.depth() >= 4 {
-				root(v)
+				root(v, ctx)
 				return
 			}
 			for _, s := range p.helpers().sites[fn] {
@@ -677,7 +751,7 @@ func (p *Program) origins(v ssa.Value, o originOpts) []ssa.Value {
 				if al, ok := rt.(*ssa.Alloc); ok {
 					sts := p.reachingStores(al, x)
 					if len(sts) == 0 {
-						root(al) // zero value
+						root(al, ctx) // zero value
 						return
 					}
 					for _, st := range sts {
@@ -686,7 +760,7 @@ func (p *Program) origins(v ssa.Value, o originOpts) []ssa.Value {
 					return
 				}
 			}
-			root(v)
+			root(v, ctx)
 		case *ssa.Call:
 			if o.throughAppend {
 				if b, ok := x.Call.Value.(*ssa.Builtin); ok && b.Name() == "append" && len(x.Call.Args) > 0 {
@@ -702,12 +776,12 @@ func (p *Program) origins(v ssa.Value, o originOpts) []ssa.Value {
 					return
 				}
 			}
-			root(v)
+			root(v, ctx)
 		default:
-			root(v)
+			root(v, ctx)
 		}
 	}
-	walk(v, nil)
+	walk(v, start)
 	return roots
 }
 
@@ -718,6 +792,31 @@ type originCtx struct {
 	site   ssa.CallInstruction
 	up     *originCtx
 	upward bool
+}
+
+// downOnly drops the upward markers (they only bound the walk).
+func (c *originCtx) downOnly() *originCtx {
+	if c == nil {
+		return nil
+	}
+	up := c.up.downOnly()
+	if c.upward {
+		return up
+	}
+	if up == c.up {
+		return c
+	}
+	return &originCtx{site: c.site, up: up}
+}
+
+func (c *originCtx) equal(d *originCtx) bool {
+	for c != nil && d != nil {
+		if c.site != d.site {
+			return false
+		}
+		c, d = c.up, d.up
+	}
+	return c == nil && d == nil
 }
 
 func (c *originCtx) depth() int {
